@@ -3247,7 +3247,11 @@ def dict_to_Expr(d, modifs = {}, opmode = x86_afs.u32, admode = x86_afs.u32, seg
         if ia32_rexpr.symb in d:
             return symb_to_Expr(d[ia32_rexpr.symb])
     elif is_address(d):
-        int_cast = tab_afs_int[admode]
+        if admode in [x86_afs.u16, x86_afs.u32]:
+            int_cast = tab_afs_int[admode]
+        else:
+            # MMX/SSE instructions are decoded with admode mm/xmm/f64: addresses stay 32-bit
+            int_cast = uint32
         #segm = None
         # XXX test
         segm = x86_afs.r_ds
